@@ -145,13 +145,22 @@ def prop_recover(case):
         x0 = cap.x0
         if x0.size == 0:
             raise Discard("no free parameter")
-        f0 = cap(x0)
+
+        def fresh_eval(x):
+            """The objective at x through a brand-new model, parameter set and optimizer (first evaluation only): the gates must
+            not depend on state the optimizer keeps between evaluations - that state is part of what this check decides."""
+            pm = kinetic.build_parameters(fcase)
+            pm.set_from_label_and_value_arrays(cap.labels, np.asarray(x, dtype=float))
+            c_ = capture.open_objective(_scheme(kinetic.build_model(fcase), pm, data, maximum_number_function_evaluations=1))
+            return c_(c_.x0)
+
+        f0 = fresh_eval(x0)
         J = np.zeros((f0.size, x0.size))
         for i in range(x0.size):
             h = 1e-6 * max(abs(x0[i]), 1e-3)
             xp = x0.copy(); xp[i] += h
             xm = x0.copy(); xm[i] -= h
-            J[:, i] = (cap(xp) - cap(xm)) / (2 * h)
+            J[:, i] = (fresh_eval(xp) - fresh_eval(xm)) / (2 * h)
         Jn = J * np.maximum(np.abs(x0), 1e-3)
         sv = np.linalg.svd(Jn, compute_uv=False)
         if sv[-1] <= 0 or sv[0] / sv[-1] > 1e4:
@@ -172,7 +181,7 @@ def prop_recover(case):
             raise Discard("free label order differs")
         costs = []
         for a in np.linspace(0.0, 1.0, 13):
-            v = cap2(xs + a * (np.asarray(xt) - xs))
+            v = fresh_eval(xs + a * (np.asarray(xt) - xs))
             costs.append(float(v @ v))
         if any(c2 > c1 * (1 + 1e-9) + 1e-300 for c1, c2 in zip(costs[:-1], costs[1:])):
             raise Discard("cost not monotone between start and truth (multi-modal landscape)")
